@@ -133,6 +133,14 @@ package multiterm
 //@   loop 1 invariant (ref(s.lines) == old(ref(s.lines)) && off(s.lines) == old(off(s.lines)) || fresh(s.lines)) && line >= 0 && len(s.lines) >= old(len(s.lines)) && len(s.lines) <= (if line >= old(len(s.lines)) then line + 1 else old(len(s.lines)))
 //@   loop 1 invariant forall k in [0, old(len(s.lines))) :: s.lines[k] == old(s.lines[k])
 //@   loop 1 invariant forall k in [old(len(s.lines)), len(s.lines)) :: s.lines[k] == ""
+// the buffered writer (--snapshot, piped output) prints every stored line once, top to bottom:
+// the k-th pair of writes (width-cut text, newline) carries line k
+//@ func (*VirtualTerm).WriteToOutput
+//@   requires out != nil
+//@   ensures [all-lines] w_calls(out) == old(w_calls(out)) + 2 * len(s.lines)
+//@   assert at "WriteLineNoWrap(out, line)" : 0 <= fdiv(w_calls(out) - old(w_calls(out)), 2) && fdiv(w_calls(out) - old(w_calls(out)), 2) < len(s.lines) && $arg1 == s.lines[fdiv(w_calls(out) - old(w_calls(out)), 2)]
+//@   loop 1 invariant ref(rangeslice()) == ref(s.lines) && off(rangeslice()) == off(s.lines) && len(rangeslice()) == len(s.lines)
+//@   loop 1 invariant rangeindex + 1 <= len(s.lines) && w_calls(out) == old(w_calls(out)) + 2 * (rangeindex + 1)
 //@ func (*VirtualTerm).Get
 //@   pure
 //@   ensures (line < 0 || line >= len(s.lines)) ==> result == ""
